@@ -716,3 +716,269 @@ Proof.
     unfold is_tomb in H2. apply negb_true_iff in H2. apply bool_decide_eq_false_1 in H2. exact H2.
   - apply IH; exact H3.
 Qed.
+
+(* ---------- reads AND discarded sessions together: the stripped sequence ----------
+   Everything but the open session — block cache INCLUDING its first-write order, working tree,
+   saved versions, version numbers and the ordered tree-call log — is the same after [ops] and
+   after [strip ops] (gas-free semantics; metered runs below the limit by [run_erase]). *)
+
+Definition sess_step (o : overlay) (x : op) : overlay :=
+  match x with Set_ k v => oset o k v | Delete k => odel o k | _ => o end.
+Definition sess_of (p : list op) : overlay := fold_left sess_step p oempty.
+Definition is_write (o : op) : bool :=
+  match o with Set_ _ _ | Delete _ => true | _ => false end.
+
+Lemma final_cons s o ops : final s (o :: ops) = final (step s o).2 ops.
+Proof.
+  unfold final. cbn [run]. destruct (step s o) as [r s1]. cbn [snd].
+  destruct (run s1 ops) as [rs s2]. reflexivity.
+Qed.
+
+Lemma final_app a : forall s b, final s (a ++ b) = final (final s a) b.
+Proof.
+  induction a as [|o a IH]; intros s b; [reflexivity|].
+  cbn [app]. rewrite !final_cons. apply IH.
+Qed.
+
+Lemma with_sess_same s : with_sess s (sess s) = s.
+Proof. destruct s; reflexivity. Qed.
+
+Lemma with_sess_None s : sess s = None -> with_sess s None = s.
+Proof. intros H. rewrite <- H at 1. apply with_sess_same. Qed.
+
+Lemma write_in_session s o ov : sess s = Some ov -> is_write o = true ->
+  (step s o).2 = with_sess s (Some (sess_step ov o)).
+Proof.
+  intros Hs Hw. destruct o; try discriminate; cbn [step].
+  - unfold do_set. rewrite Hs. reflexivity.
+  - unfold do_delete. rewrite Hs. reflexivity.
+Qed.
+
+Lemma writes_in_session p : forall s ov, Forall (fun o => is_write o = true) p ->
+  final (with_sess s (Some ov)) p = with_sess s (Some (fold_left sess_step p ov)).
+Proof.
+  induction p as [|o p IH]; intros s ov Hp; [reflexivity|].
+  inversion Hp as [|? ? Ho Hp']; subst.
+  rewrite final_cons, (write_in_session (with_sess s (Some ov)) o ov eq_refl Ho).
+  change (with_sess (with_sess s (Some ov)) (Some (sess_step ov o)))
+    with (with_sess s (Some (sess_step ov o))).
+  cbn [fold_left]. apply IH; exact Hp'.
+Qed.
+
+Lemma do_write_sess s o : do_write (with_sess s o) = with_sess (do_write s) o.
+Proof.
+  unfold do_write. cbn [with_sess cache tree wlog].
+  destruct (fold_left flush_step (okvs (cache s)) (tree s, wlog s)). reflexivity.
+Qed.
+
+(* operations that end a block / a process drop the open session and do not look at it *)
+Lemma reset_ignores_sess s o x : match o with BlockCommit | Fresh _ | Reopen => True | _ => False end ->
+  (step (with_sess s x) o).2 = (step s o).2 /\ sess (step s o).2 = None.
+Proof.
+  destruct o; intros H; try (exfalso; exact H); clear H; cbn [step].
+  - unfold do_commit. rewrite do_write_sess. split; reflexivity.
+  - split; reflexivity.
+  - split; reflexivity.
+Qed.
+
+Definition pend_ok (pend : option (list op)) (s : state) : Prop :=
+  match pend with
+  | Some p => Forall (fun o => is_write o = true) p /\ sess s = Some (sess_of p)
+  | None => sess s = None
+  end.
+
+Lemma strip_sim ops : forall pend s, gas s = None -> no_gas_ops ops -> pend_ok pend s ->
+  with_sess (final s ops) None = with_sess (final (with_sess s None) (strip_aux pend ops)) None.
+Proof.
+  induction ops as [|o ops IH]; intros pend s Hn Hf Hp.
+  { destruct s; reflexivity. }
+  inversion Hf as [|? ? Ho Hf']; subst.
+  pose proof (step_gas_None s o Hn Ho) as Hn'.
+  rewrite final_cons.
+  destruct (is_read o) eqn:Er.
+  { (* reads change nothing *)
+    rewrite (read_noop s o Hn Er).
+    assert (E : strip_aux pend (o :: ops) = strip_aux pend ops)
+      by (destruct o; try discriminate; reflexivity).
+    rewrite E. apply IH; assumption. }
+  destruct o; try discriminate.
+  - (* Set_ *)
+    destruct pend as [p|]; cbn [strip_aux].
+    + destruct Hp as [Hp Hs].
+      rewrite (write_in_session s (Set_ k v) _ Hs eq_refl).
+      rewrite (IH (Some (p ++ [Set_ k v])) (with_sess s (Some (sess_step (sess_of p) (Set_ k v))))).
+      * destruct s; reflexivity.
+      * destruct s; exact Hn.
+      * exact Hf'.
+      * split; [apply Forall_app; split; [exact Hp|repeat constructor]|].
+        unfold sess_of. rewrite fold_left_app. destruct s; reflexivity.
+    + cbn [pend_ok] in Hp.
+      assert (Es : with_sess s None = s) by (rewrite <- Hp; apply with_sess_same).
+      rewrite Es, final_cons.
+      assert (Hs' : sess (step s (Set_ k v)).2 = None)
+        by (cbn [step]; unfold do_set; rewrite Hp, Hn; exact Hp).
+      rewrite (IH None (step s (Set_ k v)).2 Hn' Hf' Hs'), (with_sess_None _ Hs'). reflexivity.
+  - (* Delete *)
+    destruct pend as [p|]; cbn [strip_aux].
+    + destruct Hp as [Hp Hs].
+      rewrite (write_in_session s (Delete k) _ Hs eq_refl).
+      rewrite (IH (Some (p ++ [Delete k])) (with_sess s (Some (sess_step (sess_of p) (Delete k))))).
+      * destruct s; reflexivity.
+      * destruct s; exact Hn.
+      * exact Hf'.
+      * split; [apply Forall_app; split; [exact Hp|repeat constructor]|].
+        unfold sess_of. rewrite fold_left_app. destruct s; reflexivity.
+    + cbn [pend_ok] in Hp.
+      assert (Es : with_sess s None = s) by (rewrite <- Hp; apply with_sess_same).
+      rewrite Es, final_cons.
+      assert (Hs' : sess (step s (Delete k)).2 = None)
+        by (cbn [step]; unfold do_delete; rewrite Hp, Hn; exact Hp).
+      rewrite (IH None (step s (Delete k)).2 Hn' Hf' Hs'), (with_sess_None _ Hs'). reflexivity.
+  - (* BeginTx *)
+    cbn [strip_aux step snd].
+    rewrite (IH (Some []) (with_sess s (Some oempty))).
+    + destruct s; reflexivity.
+    + destruct s; exact Hn.
+    + exact Hf'.
+    + split; [constructor|destruct s; reflexivity].
+  - (* CommitTx *)
+    destruct pend as [p|]; cbn [strip_aux].
+    + destruct Hp as [Hp Hs]. cbn [step]. rewrite Hs. cbn [snd].
+      rewrite final_cons. cbn [step snd].
+      change (with_sess (with_sess s None) (Some oempty)) with (with_sess s (Some oempty)).
+      rewrite final_app, (writes_in_session p s oempty Hp), final_cons.
+      cbn [step with_sess sess snd]. fold (sess_of p).
+      rewrite (IH None (with_sess (with_cache s (replay (sess_of p) (cache s))) None)).
+      * destruct s; reflexivity.
+      * destruct s; exact Hn.
+      * exact Hf'.
+      * destruct s; reflexivity.
+    + cbn [pend_ok] in Hp. cbn [step]. rewrite Hp. cbn [snd].
+      apply (IH None s Hn Hf' Hp).
+  - (* DiscardTx *)
+    cbn [strip_aux step snd].
+    rewrite (IH None (with_sess s None)).
+    + destruct s; reflexivity.
+    + destruct s; exact Hn.
+    + exact Hf'.
+    + destruct s; reflexivity.
+  - (* Write *)
+    cbn [strip_aux]. rewrite final_cons. cbn [step snd].
+    rewrite do_write_sess.
+    apply IH; [exact Hn'|exact Hf'|].
+    assert (Ew : sess (do_write s) = sess s).
+    { unfold do_write. destruct (fold_left flush_step (okvs (cache s)) (tree s, wlog s)). reflexivity. }
+    destruct pend as [p|]; cbn [pend_ok] in *; [destruct Hp as [Hp Hs]; split; [exact Hp|]|];
+      cbn [step snd]; congruence.
+  - (* BlockCommit *)
+    destruct (reset_ignores_sess s BlockCommit None I) as [E1 E2].
+    cbn [strip_aux]. rewrite final_cons, E1.
+    rewrite (IH None _ Hn' Hf' E2).
+    assert (Es : with_sess (step s BlockCommit).2 None = (step s BlockCommit).2)
+      by (rewrite <- E2 at 1; apply with_sess_same).
+    rewrite Es. reflexivity.
+  - (* Fresh *)
+    destruct (reset_ignores_sess s (Fresh limit) None I) as [E1 E2].
+    cbn [strip_aux]. rewrite final_cons, E1.
+    rewrite (IH None _ Hn' Hf' E2).
+    assert (Es : with_sess (step s (Fresh limit)).2 None = (step s (Fresh limit)).2)
+      by (rewrite <- E2 at 1; apply with_sess_same).
+    rewrite Es. reflexivity.
+  - (* Reopen *)
+    destruct (reset_ignores_sess s Reopen None I) as [E1 E2].
+    cbn [strip_aux]. rewrite final_cons, E1.
+    rewrite (IH None _ Hn' Hf' E2).
+    assert (Es : with_sess (step s Reopen).2 None = (step s Reopen).2)
+      by (rewrite <- E2 at 1; apply with_sess_same).
+    rewrite Es. reflexivity.
+Qed.
+
+Theorem strip_invisible ops s : gas s = None -> sess s = None -> no_gas_ops ops ->
+  with_sess (final s ops) None = with_sess (final s (strip ops)) None.
+Proof.
+  intros Hn Hs Hf. unfold strip.
+  rewrite (strip_sim ops None s Hn Hf Hs).
+  assert (Es : with_sess s None = s) by (rewrite <- Hs; apply with_sess_same).
+  rewrite Es. reflexivity.
+Qed.
+
+(* the consequence the root hash depends on: the same tree calls in the same order, the same
+   block cache in the same first-write order, the same trees and versions *)
+Corollary strip_same_tree_calls ops s : gas s = None -> sess s = None -> no_gas_ops ops ->
+  let a := final s ops in let b := final s (strip ops) in
+  wlog a = wlog b /\ okeys (cache a) = okeys (cache b) /\ ovals (cache a) = ovals (cache b) /\
+  tree a = tree b /\ saved a = saved b /\ version a = version b.
+Proof.
+  intros Hn Hs Hf a b.
+  pose proof (strip_invisible ops s Hn Hs Hf) as H. fold a b in H.
+  assert (G : forall (T : Type) (f : state -> T), (forall x, f (with_sess x None) = f x) -> f a = f b) by
+    (intros T f Hfx; rewrite <- (Hfx a), <- (Hfx b), H; reflexivity).
+  repeat split.
+  - apply (G _ wlog). reflexivity.
+  - apply (G _ (fun x => okeys (cache x))). reflexivity.
+  - apply (G _ (fun x => ovals (cache x))). reflexivity.
+  - apply (G _ tree). reflexivity.
+  - apply (G _ saved). reflexivity.
+  - apply (G _ version). reflexivity.
+Qed.
+
+(* ---------- [tree_calls] (what the harness' tree twin is fed) is the ghost log [wlog] ---------- *)
+
+Lemma flush_log_prefix kvs : forall t l, exists l', (fold_left flush_step kvs (t, l)).2 = l ++ l'.
+Proof.
+  induction kvs as [|[k v] kvs IH]; intros t l.
+  - exists []. cbn. rewrite app_nil_r. reflexivity.
+  - cbn [fold_left flush_step]. destruct (is_tomb v).
+    + destruct (IH (delete k t) (l ++ [TRemove k])) as [l' E]. exists (TRemove k :: l').
+      rewrite E, <- app_assoc. reflexivity.
+    + destruct (IH (<[k:=v]> t) (l ++ [TSet k v])) as [l' E]. exists (TSet k v :: l').
+      rewrite E, <- app_assoc. reflexivity.
+Qed.
+
+Lemma do_write_log_prefix s : exists l', wlog (do_write s) = wlog s ++ l'.
+Proof.
+  unfold do_write. destruct (flush_log_prefix (okvs (cache s)) (tree s) (wlog s)) as [l' E].
+  destruct (fold_left flush_step (okvs (cache s)) (tree s, wlog s)) as [t l]. exists l'. exact E.
+Qed.
+
+Lemma step_log_prefix s o : exists l', wlog (step s o).2 = wlog s ++ l'.
+Proof.
+  assert (Z0 : exists l', wlog s = wlog s ++ l') by (exists []; rewrite app_nil_r; reflexivity).
+  destruct o; cbn [step].
+  - unfold do_get. destruct (match sess s with Some o => oget o k | None => None end); [exact Z0|].
+    destruct (cache_get s k) as [[v|] g]; exact Z0.
+  - unfold do_set. destruct (sess s); [exact Z0|]. destruct (gas s) as [g|]; [|exact Z0].
+    destruct (consume_strict g 1 WRITEFLAT) as [[|] g1]; exact Z0.
+  - unfold do_exists. destruct (match sess s with Some o => oget o k | None => None end); [exact Z0|].
+    destruct (cache_exists s k) as [[|] g]; [|exact Z0].
+    destruct (cache_get (with_gas s g) k) as [[v|] g']; exact Z0.
+  - unfold do_delete. destruct (sess s); [exact Z0|]. destruct (gas s) as [g|]; [|exact Z0].
+    destruct (consume_strict g 1 DELETEGAS) as [[|] g1]; exact Z0.
+  - exact Z0.
+  - destruct (sess s); exact Z0.
+  - exact Z0.
+  - apply do_write_log_prefix.
+  - unfold do_commit. cbn [snd wlog]. destruct (do_write_log_prefix s) as [l' E].
+    exists (l' ++ [TSave]). rewrite E, <- app_assoc. reflexivity.
+  - exact Z0.
+  - exact Z0.
+  - exact Z0.
+Qed.
+
+Definition not_reopen (c : tcall) : bool := match c with CReopen => false | _ => true end.
+
+Theorem tree_calls_are_wlog ops : forall s,
+  map tcall_of (wlog (final s ops)) = map tcall_of (wlog s) ++ filter not_reopen (tree_calls s ops).
+Proof.
+  induction ops as [|o ops IH]; intros s.
+  - cbn. rewrite app_nil_r. reflexivity.
+  - rewrite final_cons, IH. cbn [tree_calls].
+    destruct (step_log_prefix s o) as [l' E]. rewrite E.
+    rewrite drop_app, map_app, <- app_assoc. f_equal.
+    rewrite !filter_app. f_equal.
+    + assert (F : forall l : list treeop, filter not_reopen (map tcall_of l) = map tcall_of l).
+      { induction l as [|x l IHl]; [reflexivity|].
+        cbn [map]. rewrite filter_cons_True by (destruct x; exact I). rewrite IHl. reflexivity. }
+      symmetry. apply F.
+    + destruct o; reflexivity.
+Qed.
